@@ -51,7 +51,8 @@ theorem UpdFamFp.check_ok {p : Profile} {i : Input} {m : Msg} (U : UpdFamFp p i.
     (hty : expectedType i.msg = 2)
     (hopq : ∀ frames, opaqueClause i frames = none)
     (hcontent : ∀ frames, contentClause i frames (chunksG U.Q U.N es) = none) :
-    check i (run p i) = .ok := by
+    check i (run p i) = .ok ∧ ∃ n s dec, run p i = .obs n s dec .t := by
+  refine ⟨?_, _, _, _, U.run_eq hm es hes hne hS⟩
   rw [U.run_eq hm es hes hne hS]
   unfold check checkClause
   simp only [hb, Bool.not_true, Bool.false_eq_true, if_false, henc, if_true, checkClause0]
